@@ -88,6 +88,9 @@ static Reg r_rewrite_twice("rewrite_twice", [](std::vector<std::string> const& a
         pdf.processFile(path.c_str());
     }
     for (size_t k = 2; k + 1 < a.size(); k += 2) {
+        if (("," + a.at(k + 1) + ",").find(",pushfirst,") != std::string::npos) {
+            pdf.pushInheritedAttributesToPage();
+        }
         QPDFWriter w(pdf, a.at(k).c_str());
         io_apply_flags(w, a.at(k + 1));
         w.write();
